@@ -4,9 +4,11 @@ import (
 	"fmt"
 	"time"
 
+	"github.com/scrapli/scrapligo/driver/generic"
 	"github.com/scrapli/scrapligo/driver/network"
 	"github.com/scrapli/scrapligo/driver/options"
 	"github.com/scrapli/scrapligo/logging"
+	"github.com/scrapli/scrapligo/util"
 
 	"verif/harness/sim"
 )
@@ -114,6 +116,49 @@ func runC11Escalate(cs *Case, c *c10Case, sink *logSink, li *logging.Instance) {
 		cs.Line = "" // failing writes are outside the model: log oracle only
 	}
 	if m := sink.containsAny(c.Secret); m != "" {
+		cs.Oracle = m
+		cs.Sig = "C11:secret-logged"
+	}
+	emit(cs)
+}
+
+// runC11System: logins through the system transport that fail before or right after ssh is started
+// (oracle only): no log line may contain the password or the key passphrase.
+func runC11System(cs *Case, c *c10Case, sink *logSink, li *logging.Instance) {
+	opts := []util.Option{options.WithTransportType("system"), options.WithLogger(li), options.WithChannelLog(sink),
+		options.WithAuthUsername(c.User), options.WithTimeoutSocket(2 * time.Second), options.WithTimeoutOps(300 * time.Millisecond),
+		options.WithAuthNoStrictKey(), options.WithSystemTransportOpenBin("/bin/true")}
+	if c.OnAuth == 0 {
+		cs.Kind += "/key-with-passphrase"
+		opts = append(opts, options.WithAuthPrivateKey("/nonexistent/c11/id_ed25519", c.Passphrase))
+	} else {
+		cs.Kind += "/password-ssh-exits"
+		opts = append(opts, options.WithAuthPassword(c.Password))
+	}
+	d, err := generic.NewDriver("192.0.2.1", opts...)
+	if err != nil {
+		cs.Oracle = "driver construction failed: " + err.Error()
+		emit(cs)
+		return
+	}
+	done := make(chan error, 1)
+	go func() { done <- d.Open() }()
+	var oerr error
+	select {
+	case oerr = <-done:
+	case <-time.After(10 * time.Second):
+		cs.Oracle = "Open did not return within 10 s"
+		cs.Sig = "C11:system-open-hang"
+		emit(cs)
+		return
+	}
+	if oerr == nil {
+		_ = d.Close()
+	}
+	time.Sleep(2 * time.Millisecond)
+	cs.Obs = "open:" + errClass(oerr)
+	cs.Nontrivial = true
+	if m := sink.containsAny(c.Password, c.Passphrase); m != "" {
 		cs.Oracle = m
 		cs.Sig = "C11:secret-logged"
 	}
